@@ -100,6 +100,11 @@ def run(ctx) -> Result:
         rng = Rng(seed, f"c15/{i}")
         s = vtime.run(lambda loop, r=rng: fifo_session(r, 120 if deep else 50), budget=1_000_000)
         check_session(s, model, res, f"fifo-{seed}-{i}")
+    # Redis broker: sessions on the real RedisMessageBroker/_RedisConsumer (in-process fake server) vs the Lean model
+    # Redis.R, and this property's clauses on what the implementation did
+    import redisrun
+    res.merge(redisrun.part(ctx, "C15", ['fifo', 'fifo', 'mixed'], crash=0, race=0))
+    res.assumptions = list(getattr(res, "assumptions", []) or []) + redisrun.ASSUMPTIONS
     return res
 
 
